@@ -1,17 +1,27 @@
 package main
 
+import (
+	"go/ast"
+	"go/types"
+	"strings"
+)
+
 func init() { register("C11", propC11) }
 
 func propC11(r *Report, tier string) {
-	r.Explanation = "Structural necessary conditions of 'safe under concurrent use; Close always completes', decided on every path of every bleve function: (K1) every mutex acquisition is paired with a release or deferred release on all non-panicking exits. (K4) fields of cachedFieldDocs filled by the goroutine that closes readyCh are read only after a receive from readyCh of the same object or under its mutex. (K5) the merger loop exits only in the closeCh case or on ErrClosed of a request that was not user-triggered."
+	r.Explanation = "Structural necessary conditions of 'safe under concurrent use; Close always completes', decided on every path of every bleve function: (K1) every mutex acquisition is paired with a release or deferred release on all non-panicking exits. (K4) fields of cachedFieldDocs filled by the goroutine that closes readyCh are read only after a receive from readyCh of the same object or under its mutex. (K5) the merger loop exits only in the closeCh case or on ErrClosed of a request that was not user-triggered. (K2) guarded-by tables for 24 more mutex-protected fields of the index handle, the alias, snapshots, doc-value caches, the KV adapters and the registry (discovered with an access-statistics aid, confirmed by reading, frozen). (K1) every index reader / KV reader / copy reader obtained inside a function is closed, deferred-closed or handed over on all exits (an unclosed bolt reader makes Close of the store block forever; an unclosed scorch reader pins its snapshot's files)."
 	r.NotCovered = "data races on fields outside the guarded-by tables, absence of panics, real deadlock freedom for all schedules, goroutine leaks inside third-party stores"
 	k1Locks(r, "K1-lock-pairing", nil)
 	r.Floor("K1-lock-pairing", 100)
+	r.Floor("K2-guarded-by-tables", 150)
+	r.Floor("K1-readers-closed", 15)
 	ruleNoReentrantLocking(r, "K3-no-reentrant-locking")
 	ruleAPIOpenCheck(r, "K7-api-open-check")
 	ruleAliasOpenCheck(r, "K7-alias-open-check")
 	ruleScorchRootLockTable(r, "K2-rootLock-guarded-by")
 	ruleGuardedByTables(r, "K2-guarded-by-tables")
+	ruleClosersClosed(r, "K1-readers-closed", func(rel string) bool { return !strings.HasPrefix(rel, "cmd/") },
+		func(c *ast.CallExpr, f *types.Func) bool { return f != nil && (f.Name() == "Reader" || f.Name() == "CopyReader") }, closersAllow)
 	ruleScorchChannelDiscipline(r, "K4-channel-discipline")
 	ruleLoopLifecycle(r, "K5-loop-lifecycle")
 	ruleCancellationPolled(r, "K5-cancellation")
@@ -93,4 +103,10 @@ func ruleGuardedByTables(r *Report, rule string) {
 	for _, t := range tables {
 		ruleGuardedBy(r, rule, t.pkg, t.fields, t.exempt)
 	}
+}
+
+var closersAllow = map[string]string{
+	"bleve.(*indexImpl).FieldDict/indexReader":       "true leak of the index reader when the dictionary cannot be opened; in both engines that only happens for a corrupt segment/store (outside C11's quantifier), so it is recorded here, not as a finding",
+	"bleve.(*indexImpl).FieldDictRange/indexReader":  "same as FieldDict",
+	"bleve.(*indexImpl).FieldDictPrefix/indexReader": "same as FieldDict",
 }
